@@ -459,7 +459,7 @@ func runHistory(h *history, sec *vh.Section, section string) {
 		case "create":
 			// everything written so far is acknowledged, flushed and its notification processed
 			r.srv.FlushWait()
-			time.Sleep(20 * time.Millisecond)
+			time.Sleep(100 * time.Millisecond)
 			for i := range r.created {
 				r.created[i] = len(r.written[i])
 			}
